@@ -224,6 +224,8 @@ extend("C17", "internal queries and client policy: ratelimit.ServeDNS and reflex
 
 extend("C01", "a failed resolution carries no data: DNSHandler.handle, with the resolution replaced by a stub that returns any mix of a data-bearing message and an error (validation error with any EDE code, wrapped, deadline, cancellation, exhausted budget, plain), answers SERVFAIL with no answer/authority/additional record, no AD, the client's id and question, and an Extended DNS Error exactly when the client sent an OPT.")
 
+extend("C12", "the alias chase on cache write-back (Cache.additionalAnswer over scripted follow-up responses): never-ending chains and loops back to the question, to an earlier target or to itself, in any letter case, end after a bounded number of follow-up questions with a message; and the completed answer claims AD only if the answer it started from and every follow-up response it merged were authenticated (shared with C01).")
+
 NA_REASON = "no check registered yet: the solver-based harness for this property is still being built in this session (see DESIGN.md §5 for the plan)"
 def main():
     props = [json.loads(l) for l in open(os.path.join(ROOT, "properties.jsonl"))]
